@@ -2,7 +2,7 @@
 import random
 import re
 
-from harness import tlc, sk, tracecheck
+from harness import tlc, sk, tracecheck, indep
 from harness.common import Check, seed, machinery_failure, tla_lit
 from harness.tracecheck import digits
 
@@ -164,6 +164,34 @@ def run(pid, tier, replay=None):
                 acc = False
             ev.append({"k": "enforce", "h": digits(h), "v": sum(parts), "accepted": acc})
             nprobe += 1
+        # ... and as it arrives from a peer: the block as bytes (independent encoder: the amount is an unsigned 64-bit field), decoded by the
+        # node; amounts whose top bit is set next to an ordinary output -- the total is far above any subsidy
+        if h in (1, interval, interval + 1) or nprobe % 97 == 0:
+            for d_ in (1, 10 ** 9, 2 ** 62):
+                for parts in ([s_doc + d_, 2 ** 64 - d_], [2 ** 64 - d_, s_doc + d_], [s_doc + d_, 2 ** 63, 2 ** 63 - d_]):
+                    if any(not 0 <= p_ < 2 ** 64 for p_ in parts):
+                        continue
+                    try:
+                        bw = blk(h, parent.hash(), 0, parts)
+                        raw = indep.enc_block(bw)
+                    except Exception as ex:
+                        chk.notes.append("cannot encode the wire probe: %r" % ex)
+                        continue
+                    try:
+                        bd = Block.deserialize(raw)
+                    except Exception:
+                        ev.append({"k": "enforce_wire", "h": digits(h), "accepted": False, "how": "does not decode"})
+                        nprobe += 1
+                        continue
+                    try:
+                        c.validate_coinbase_transaction_in_coinstate(bd.transactions[0], bd, cs)
+                        acc = True
+                    except c.ValidationError:
+                        acc = False
+                    except Exception:
+                        acc = False
+                    ev.append({"k": "enforce_wire", "h": digits(h), "accepted": acc, "how": "validated"})
+                    nprobe += 1
         try:
             cbt = c.construct_coinbase_transaction(h, [], {}, b"probe", pk)
             mv = sum(o.value for o in cbt.outputs)
@@ -171,6 +199,8 @@ def run(pid, tier, replay=None):
         except Exception as ex:
             chk.notes.append("construct_coinbase_transaction(%d) raised %r" % (h, ex))
     chk.extra["enforced_reward_probes"] = nprobe
+    if sum(1 for e_ in ev if e_.get("k") == "enforce_wire") < 9:
+        return machinery_failure(pid, "the wire-level reward probes were not produced")
     # ---- the schedule is a function of the height, also when the validator (network thread) and the assembler (miner's thread) ask at
     #      the same time, on both sides of a halving (Interfere.tla; preemption-point exploration on real threads)
     from checks import interfere
